@@ -335,16 +335,16 @@ def faithfulOn {β : Type} [DecidableEq β] (g : Getter) (d : String → β) (c 
   | .ok r => c.kw.all (fun e => lookup r e.1 == some e.2) &&
              ((g.order.zip c.pos).all (fun e => lookup r e.1 == some e.2))
 
-/-- canonical calls of a getter, the value of parameter `n` being the string `v:n`: everything by keyword (binding
+/-- canonical calls of a getter, the value of parameter `n` being the string `n` itself: everything by keyword (binding
 treats a keyword for a leading parameter like the positional argument), everything by position, and the getter's own
 parameters by position with the rest by keyword -/
 def kwCall (g : Getter) : Call String :=
-  { pos := [], kw := g.order.map (fun n => (n, "v:" ++ n)) }
+  { pos := [], kw := g.order.map (fun n => (n, n)) }
 
 def posCall (g : Getter) : Call String :=
-  { pos := g.order.map (fun n => "v:" ++ n), kw := [] }
+  { pos := g.order, kw := [] }
 
 def mixedCall (g : Getter) : Call String :=
-  { pos := g.names.map (fun n => "v:" ++ n), kw := g.extras.map (fun e => (e.1, "v:" ++ e.1)) }
+  { pos := g.names, kw := g.extras.map (fun e => (e.1, e.1)) }
 
 end KawinV.Forward
